@@ -1,64 +1,76 @@
 (* C01 (iv) - the save/restore pair mcount_save_arch_context / mcount_restore_arch_context
-   (arch/x86_64/mcount-support.c) as the GENERATED lists of Gen/Stubs.v: an SSE pair (used when the ymm
-   state is not enabled) and an AVX pair (used when cpuid/xgetbv say it is).  The six C hook wrappers
-   bracket their body with this pair, so it is also what a hook call does to the vector registers
-   (Machine.v).  A register is modelled with its 256 bits: ((bits 0-63, 64-127), (128-191, 192-255));
-   without AVX only the first pair exists architecturally.  Definitions only - no proofs. *)
+   (arch/x86_64/mcount-support.c) as the GENERATED lists of Gen/Stubs.v: an SSE pair, an AVX pair and an
+   AVX-512 pair, chosen by what cpuid/xgetbv report (mcount_arch_check_avx() = 0 / 1 / 2).  The six C hook
+   wrappers bracket their body with the pair, so it is also what a hook call does to the vector registers
+   (Machine.v).  A vector register is modelled with its 512 bits as eight 64-bit words (word i = bits
+   64i..64i+63); a machine of level 0 / 1 / 2 has 2 / 4 / 8 of them architecturally.
+   Definitions only - no proofs. *)
 From Coq Require Import ZArith List Bool.
 Require Import UV.C01.Isa UV.Gen.Stubs.
 Import ListNotations.
 Local Open Scope Z_scope.
 
-Definition yreg := ((Z * Z) * (Z * Z))%type.
-Definition yfile := nat -> yreg.
+Definition vreg := nat -> Z.
+Definition vfile := nat -> vreg.
 Definition xfile := nat -> Z * Z.            (* the 128-bit view used by the stub machine *)
-Definition yset (x : yfile) (r : nat) (v : yreg) : yfile := fun i => if Nat.eqb i r then v else x i.
+Definition vset (x : vfile) (r : nat) (v : vreg) : vfile := fun i => if Nat.eqb i r then v else x i.
 Definition cset (c : Z -> Z) (a : Z) (v : Z) : Z -> Z := fun i => if i =? a then v else c i.
 
-(* ctx->xmm[] is a byte-addressed array of 8-byte cells.
-   Stores write 1 (movsd/movq), 2 (movdqu/movups) or 4 (vmovdqu %ymm) cells.
-   Loads: movsd/movq clear bits 64-127; every legacy-SSE load leaves bits 128-255 as they are;
-   vmovdqu %ymm loads all 256 bits. *)
-Definition xop_exec (slot_bytes : Z) (s : yfile * (Z -> Z)) (o : xop) : yfile * (Z -> Z) :=
+(* number of 64-bit words an instruction moves *)
+Definition width (m : xmov) : nat :=
+  match m with Xmovsd | Xmovq => 1 | Xmovdqu | Xmovups => 2 | Xvmovdqu => 4 | Xvmovdqu64 => 8 end%nat.
+(* VEX/EVEX-encoded loads clear every bit of the register above the vector length; legacy-SSE loads leave
+   bits 128.. alone; movsd/movq from memory clear bits 64-127 *)
+Definition vex (m : xmov) : bool := match m with Xvmovdqu | Xvmovdqu64 => true | _ => false end.
+Definition scalar (m : xmov) : bool := match m with Xmovsd | Xmovq => true | _ => false end.
+
+Definition words (n : nat) : list nat := seq 0 n.
+Definition store_words (c : Z -> Z) (off : Z) (v : vreg) (n : nat) : Z -> Z :=
+  fold_left (fun c' i => cset c' (off + 8 * Z.of_nat i) (v i)) (words n) c.
+Definition load_reg (m : xmov) (c : Z -> Z) (off : Z) (old : vreg) : vreg :=
+  fun i => if Nat.ltb i (width m) then c (off + 8 * Z.of_nat i)
+           else if vex m then 0
+           else if (scalar m && Nat.eqb i 1)%bool then 0
+           else old i.
+
+(* ctx->xmm[] is a byte-addressed array of 8-byte cells *)
+Definition xop_exec (slot_bytes : Z) (s : vfile * (Z -> Z)) (o : xop) : vfile * (Z -> Z) :=
   let '(x, c) := s in
   match o with
-  | XSave m r k =>
-      let off := Z.of_nat k * slot_bytes in
-      let a := fst (fst (x r)) in let b := snd (fst (x r)) in
-      let u := fst (snd (x r)) in let v := snd (snd (x r)) in
-      match m with
-      | Xmovsd | Xmovq => (x, cset c off a)
-      | Xmovdqu | Xmovups => (x, cset (cset c off a) (off + 8) b)
-      | Xvmovdqu => (x, cset (cset (cset (cset c off a) (off + 8) b) (off + 16) u) (off + 24) v)
-      end
-  | XLoad m k r =>
-      let off := Z.of_nat k * slot_bytes in
-      match m with
-      | Xmovsd | Xmovq => (yset x r ((c off, 0), snd (x r)), c)
-      | Xmovdqu | Xmovups => (yset x r ((c off, c (off + 8)), snd (x r)), c)
-      | Xvmovdqu => (yset x r ((c off, c (off + 8)), (c (off + 16), c (off + 24))), c)
-      end
+  | XSave m r k => (x, store_words c (Z.of_nat k * slot_bytes) (x r) (width m))
+  | XLoad m k r => (vset x r (load_reg m c (Z.of_nat k * slot_bytes) (x r)), c)
   end.
 
 (* save; arbitrary code that may use every vector register (a script, libc: pxor, vzeroupper, ...); restore *)
-Definition arch_roundtrip (slot_bytes : Z) (save restore : list xop) (x : yfile) (c0 : Z -> Z)
-           (clobber : yfile) : yfile :=
+Definition arch_roundtrip (slot_bytes : Z) (save restore : list xop) (x : vfile) (c0 : Z -> Z)
+           (clobber : vfile) : vfile :=
   let '(_, c1) := fold_left (xop_exec slot_bytes) save (x, c0) in
   fst (fold_left (xop_exec slot_bytes) restore (clobber, c1)).
 
-(* avx = the ymm state is enabled (what mcount_arch_check_avx() detects) *)
-Definition arch_roundtrip_now (avx : bool) : yfile -> (Z -> Z) -> yfile -> yfile :=
-  if avx then arch_roundtrip arch_ctx_slot_bytes arch_ctx_save_avx arch_ctx_restore_avx
-  else arch_roundtrip arch_ctx_slot_bytes arch_ctx_save_sse arch_ctx_restore_sse.
+(* level = what mcount_arch_check_avx() detects: 0 xmm only, 1 ymm state enabled, 2 zmm state enabled *)
+Definition arch_roundtrip_now (level : nat) : vfile -> (Z -> Z) -> vfile -> vfile :=
+  match level with
+  | O => arch_roundtrip arch_ctx_slot_bytes arch_ctx_save_sse arch_ctx_restore_sse
+  | S O => arch_roundtrip arch_ctx_slot_bytes arch_ctx_save_avx arch_ctx_restore_avx
+  | _ => arch_roundtrip arch_ctx_slot_bytes arch_ctx_save_avx512 arch_ctx_restore_avx512
+  end.
+(* words of a register that exist on a machine of that level *)
+Definition visible (level : nat) : nat := match level with O => 2 | S O => 4 | _ => 8 end%nat.
 
 (* bits 0-127 only *)
-Definition lift (x : xfile) : yfile := fun i => (x i, (0, 0)).
-Definition arch_roundtrip128 (avx : bool) (x : xfile) (c0 : Z -> Z) (clobber : xfile) : xfile :=
-  fun i => fst (arch_roundtrip_now avx (lift x) c0 (lift clobber) i).
+Definition lift (x : xfile) : vfile := fun r i => match i with O => fst (x r) | S O => snd (x r) | _ => 0 end.
+Definition arch_roundtrip128 (level : nat) (x : xfile) (c0 : Z -> Z) (clobber : xfile) : xfile :=
+  fun r => let v := arch_roundtrip_now level (lift x) c0 (lift clobber) r in (v 0%nat, v 1%nat).
 
 (* the code before fix C01-1: movsd both ways into 8-byte slots *)
 Definition legacy_save : list xop := map (fun i => XSave Xmovsd i i) (seq 0 8).
 Definition legacy_restore : list xop := map (fun i => XLoad Xmovsd i i) (seq 0 8).
 Definition arch_roundtrip_legacy := arch_roundtrip 8 legacy_save legacy_restore.
-(* the code before fix C01-5: the SSE pair also on a machine whose ymm state is live *)
-Definition arch_roundtrip_sse_only := arch_roundtrip_now false.
+(* the code before fix C01-5: the SSE pair (movdqu into 16-byte slots) also on a machine whose ymm state is live *)
+Definition sse_save : list xop := map (fun i => XSave Xmovdqu i i) (seq 0 8).
+Definition sse_restore : list xop := map (fun i => XLoad Xmovdqu i i) (seq 0 8).
+Definition arch_roundtrip_sse_only := arch_roundtrip 16 sse_save sse_restore.
+(* the code before fix C01-6: the AVX pair (vmovdqu %ymm into 32-byte slots) also on a machine whose zmm state is live *)
+Definition avx_save : list xop := map (fun i => XSave Xvmovdqu i i) (seq 0 8).
+Definition avx_restore : list xop := map (fun i => XLoad Xvmovdqu i i) (seq 0 8).
+Definition arch_roundtrip_avx_only := arch_roundtrip 32 avx_save avx_restore.
